@@ -160,8 +160,12 @@ TraceBlockMsg ==
      IN
      \* the honest payload carries exactly what is due (C06/C15); its result is the specification's
      /\ Chk((B("unlock") /\ Ev.otherOk) => DeliveredOk(Ev), "DELIVERED-MISMATCH", << DueRewards(lk), DueUnlocks(lk), lk.nonce >>)
-     /\ Chk((B("blockmsg") /\ Ev.otherOk) => (Ev.ok = specOk), "BLOCKMSG-VERDICT", specOk)
-     /\ Ev.ok => Ev.otherOk
+     /\ Chk((B("blockmsg") /\ Ev.otherOk /\ ~Ev.ou) => (Ev.ok = specOk), "BLOCKMSG-VERDICT", specOk)
+     \* ou ("others unknown"): the same block message carries possibly failing requests of ANOTHER module (system histories);
+     \* then only "accepted => this module's requests were acceptable" can be demanded here - and, below, that a failed
+     \* block message leaves this module's state untouched whoever caused the failure (all-or-nothing across modules)
+     /\ Chk((B("blockmsg") /\ Ev.ou) => (Ev.ok => specOk), "BLOCKMSG-ACCEPTED-BAD-REQUESTS", specOk)
+     /\ (Ev.ok /\ ~Ev.ou) => Ev.otherOk
      /\ IF Ev.ok
           THEN /\ lk' = [S EXCEPT !.err = FALSE]
                /\ hist' = [hist EXCEPT
